@@ -304,7 +304,7 @@ int WorkerMain(int argc, char ** argv, const WorkerDef & def)
       std::vector<uint64_t> idxList;
       if (idxFile) {for (auto & l : ReadPlanFile(idxFile)) idxList.push_back(ToU(l));}
       const double t0 = RealNowSec();
-      Stats agg; uint64_t runs = 0, nontrivial = 0, simUs = 0, hprinted = 0;
+      Stats agg; uint64_t runs = 0, nontrivial = 0, simUs = 0, hprinted = 0; double lastAggAt = t0;
       const uint64_t total = idxFile ? idxList.size() : count;
       for (uint64_t k=0; k<total; k++)
       {
@@ -327,6 +327,13 @@ int WorkerMain(int argc, char ** argv, const WorkerDef & def)
          }
          else {Plan p = pd->gen(seed); RunOne(def, *pd, p, r);}
          runs++; if (r.nontrivial) nontrivial++; simUs += r.simMicros; agg.merge(r.stats);
+         if ((r.ok)&&((runs >= 256)||((RealNowSec()-lastAggAt) > 2.0)))
+         {
+            // counters are handed over in instalments, so that a later sanitizer abort (which prints nothing) loses at most the runs since the last one
+            printf("AGG {\"runs\":%llu,\"nontrivial\":%llu,\"sim_us\":%llu,\"stats\":%s}\n", (unsigned long long) runs, (unsigned long long) nontrivial, (unsigned long long) simUs, agg.json().c_str());
+            fflush(stdout); if (hashesF) fflush(hashesF);
+            runs = nontrivial = simUs = 0; agg = Stats(); lastAggAt = RealNowSec();
+         }
          if ((hashesF)&&(r.nontrivial)&&(r.ok)) fwrite(&r.hash, sizeof(r.hash), 1, hashesF);
          if ((idxFile)||((hsample > 0)&&((idx % hsample) == 0)&&(hprinted < hmax))) {printf("H %llu %016llx\n", (unsigned long long) idx, (unsigned long long) r.hash); hprinted++;}
          if (r.ok == false)
